@@ -31,12 +31,26 @@ package act
 // C09 callers: the three supervisor machines consult the restart window with the configured period
 // and intensity, on their own restart history, and store the pruned history back.
 //@ spec func restartsWF(r []int64) bool = sortedI64(r) && (forall i int :: 0 <= i && i < len(r) ==> 0 <= r[i] && r[i] <= wallclock()) && wallclock() >= 0
+// C08 (one-for-one) decision table of a child termination, for every machine state and event.
+//@ spec func ofoWF(s *supOFO) bool = (forall i int :: 0 <= i && i < len(s.spec) ==> s.spec[i] != nil) && (forall i, j int :: 0 <= i && i < j && j < len(s.spec) ==> s.spec[i] != s.spec[j]) && (s.shutdown ==> s.wait != nil)
 //@ func (s *supOFO) childTerminated
-//@   props C09
+//@   props C09 C08 C10
 //@   mode int
 //@   no_safety
 //@   requires [history_wf] restartsWF(s.restarts) && 0 <= int(s.restart.Period) && 0 <= int(s.restart.Intensity)
+//@   requires [wf] ofoWF(s)
+//@   loop 1 invariant [scan] -1 <= rangeindex && rangeindex < len(s.spec) && ofoWF(s) && s.spec == old(s.spec) && s.restart == old(s.restart) && s.shutdown == old(s.shutdown) && s.autoshutdown == old(s.autoshutdown) && wait != nil
+//@   loop 1 invariant [found_spec] found ==> spec != nil && !(forall i int :: 0 <= i && i <= rangeindex ==> s.spec[i] != spec)
+//@   loop 1 invariant [others_untouched] forall i int :: 0 <= i && i < len(s.spec) && s.spec[i].Name != name && old(s.spec[i].pid) != pid ==> s.spec[i].pid == old(s.spec[i].pid)
+//@   loop 2 invariant [scan2] s.restart == old(s.restart) && spec != nil
 //@   at call supCheckRestartIntensity assert [configured_window] period == int(s.restart.Period) && intensity == int(s.restart.Intensity) && restarts == s.restarts
+//@   ensures [temporary_never_restarts] old(s.restart.Strategy) == SupervisorStrategyTemporary ==> result.do != supActionStartChild
+//@   ensures [transient_restarts_only_after_abnormal_end] old(s.restart.Strategy) == SupervisorStrategyTransient && (reason == gen.TerminateReasonNormal || reason == gen.TerminateReasonShutdown) ==> result.do != supActionStartChild
+//@   ensures [no_restart_while_shutting_down] old(s.shutdown) ==> result.do != supActionStartChild
+//@   ensures [disabled_child_stays_down] result.do == supActionStartChild ==> !result.spec.disabled
+//@   ensures [one_for_one_touches_only_that_child] forall i int :: 0 <= i && i < len(s.spec) && s.spec[i].Name != name && old(s.spec[i].pid) != pid ==> s.spec[i].pid == old(s.spec[i].pid)
+//@   ensures [shutdown_terminates_when_last_child_is_gone] old(s.shutdown) ==> (result.do == supActionTerminate <==> len(s.wait) == 0) && (result.do == supActionTerminate ==> result.reason == old(s.shutdownReason))
+//@   ensures [exceeded_reason_is_kept] result.do == supActionTerminateChildren && result.reason == ErrSupervisorRestartsExceeded ==> s.shutdown && s.shutdownReason == ErrSupervisorRestartsExceeded
 //@ func (s *supARFO) childTerminated
 //@   props C09
 //@   mode int
